@@ -37,6 +37,34 @@ type callInfo struct {
 	puts     int   // ISCC writes started on behalf of this call
 	reads    []int // digest indices whose backing value this call has read
 	returned bool
+	// The caller's context: mode 1 = already cancelled when Get is called (a
+	// client that has gone away), mode 2 = may be cancelled by the controller
+	// at one of the call's ISCC seams (client disconnects during the I/O).
+	mode   int
+	cancel context.CancelFunc
+	gone   bool
+}
+
+// disconnectOption is appended to the options of an ISCC seam of a call whose
+// client may still disconnect.
+const disconnectOption = "client-disconnects-during-io"
+
+func (ci *callInfo) options(base ...string) []string {
+	ci.mu.Lock()
+	defer ci.mu.Unlock()
+	if ci.mode == 2 && !ci.gone {
+		return append(base, disconnectOption)
+	}
+	return base
+}
+
+// disconnect cancels the caller's context (the calling worker is the only
+// goroutine running).
+func (ci *callInfo) disconnect() {
+	ci.mu.Lock()
+	ci.gone = true
+	ci.mu.Unlock()
+	ci.cancel()
 }
 
 // putRec is one ISCC write (one errgroup worker inside the code under test).
@@ -146,11 +174,15 @@ func (f *fakeISCC) enter(ctx context.Context, d digest.Digest, op string) (*call
 func (f *fakeISCC) Get(ctx context.Context, d digest.Digest) buffer.Buffer {
 	p := f.p
 	ci, di, _ := f.enter(ctx, d, "get")
-	opt := p.seam("iscc-get "+p.dnames[di], "ok", "iscc-get-unavailable")
+	opts := ci.options("ok", "iscc-get-unavailable")
+	opt := p.seam("iscc-get "+p.dnames[di], opts...)
 	// Resumed: this goroutine is the only one running.
+	if opts[opt] == disconnectOption {
+		ci.disconnect()
+	}
 	if err := ctx.Err(); err != nil {
 		p.w.k.Probe("iscc_get_saw_cancelled_context")
-		return buffer.NewBufferFromError(status.Error(codes.Canceled, "sibling operation failed"))
+		return buffer.NewBufferFromError(status.Error(codes.Canceled, "context cancelled (client gone or sibling operation failed)"))
 	}
 	if opt == 1 {
 		return buffer.NewBufferFromError(status.Error(codes.Unavailable, "injected ISCC read failure"))
@@ -198,12 +230,16 @@ func (f *fakeISCC) Put(ctx context.Context, d digest.Digest, b buffer.Buffer) er
 	p.putsStarted++
 	p.mu.Unlock()
 
-	opt := p.seam("iscc-put "+p.dnames[di], "ok", "iscc-put-fails-before-effect", "iscc-put-fails-after-effect")
+	opts := ci.options("ok", "iscc-put-fails-before-effect", "iscc-put-fails-after-effect")
+	opt := p.seam("iscc-put "+p.dnames[di], opts...)
 	// Resumed: this goroutine is the only one running.
 	defer func() { pr.returned = true }()
+	if opts[opt] == disconnectOption {
+		ci.disconnect()
+	}
 	if err := ctx.Err(); err != nil {
 		p.w.k.Probe("iscc_put_saw_cancelled_context")
-		return status.Error(codes.Canceled, "sibling operation failed")
+		return status.Error(codes.Canceled, "context cancelled (client gone or sibling operation failed)")
 	}
 	if opt == 1 {
 		return status.Error(codes.Unavailable, "injected ISCC write failure (nothing written)")
